@@ -7,11 +7,14 @@ import CssVerif.Model.ParseCfg
 /-!
 # C02 — the parsed DOM is the same for every way of writing a well-formed sheet
 
-First layer: the normalisation that makes names insensitive to letter case and to CSS escapes of ordinary
-name characters (`cssutils.helper.normalize`, used for property names, at-keywords, pseudo and function
-names, units, `!important`). The structure-level theorem `parse (render σ a) = a` is stated over the
-structure kernel and joins this file when that kernel is merged; until then that clause is decided by
-exploration (tools/harness/c02.py: abstract sheets × spellings, metamorphic + AST expectations).
+* the normalisation that makes names insensitive to letter case and to CSS escapes of ordinary name characters
+  (`cssutils.helper.normalize`);
+* T2.2 `parse_render`: the structure level, every rule kind of the documented grammar incl. `@page` with page
+  selector and margin boxes, `@font-face`, `@variables`, named `@import` / `@media`;
+* T2.1 locality; T2.3 the two parser options (`comments_off` at sheet, block and declaration level,
+  `validate_irrelevant` with the regenerated table of the reads of the flag), `parse_render_cfg`.
+Below the token-list level (inner spelling of selectors, values, media queries) and the text level are decided by
+exploration (tools/harness/c02.py).
 -/
 namespace CssVerif.C02
 open CssVerif.Normalize
@@ -54,7 +57,8 @@ example : normalize (spell [(true, false), (false, true), (true, true)] [0x63, 0
 
 Model: the structure kernel K2 (`Model/Struct.lean`: `_tokensupto2`, `_parse`, declaration block, property
 split, style / media / unknown rule, sheet dispatcher) and the at-rule setters of `Model/AtRules.lean`
-(`@import`, `@namespace`, `@font-face`, `@page` with margin boxes, `@charset`), for EVERY oracle `O` of the
+(`@import` with media list and name, `@namespace`, `@font-face`, `@page` with page selector and margin boxes,
+`@variables`, `@charset`, the name setters), for EVERY oracle `O` of the
 selector / value / media-query sub-parsers whose at-rule part is those setters (`AtFaithful O`; `withAtRules`
 builds one from any oracle) and every margin table `M`.
 Specification: `Model/SheetSpec.lean` — abstract sheet `A…`, spelled sheet `S…`, `erase`, `render`, DOM
@@ -71,7 +75,8 @@ white-space / comment tokens at every gap of its statements, any letter case and
 property names and the priority ident, any quote style of import targets / namespace URIs / the encoding, any
 placement of stand-alone `;` and the optional `;` after the last declaration — the DOM projection of what the
 parser builds from the tokens of `s` is the abstract sheet: the rules in order, each with its selector groups,
-declarations (name, value, priority), media queries, import target, namespace binding, and nothing else. -/
+declarations (name, value, priority), media queries and name, import target / media / name, namespace binding, page
+selector and margin boxes, variables (name, value), and nothing else. -/
 theorem parse_render (O : Oracle) (M : List Cps) (hO : AtFaithful O) (s : SSheet) (h : s.WF O M) :
     projSheet O M (parseSheet O M (render s)) = s.erase := by
   rw [parseSheet_render O M hO s h, projSheet_parsed O M s h]
@@ -107,6 +112,35 @@ theorem media_rule_recovered (O : Oracle) (M : List Cps) (hO : AtFaithful O) (ns
       some (SRule.media kw g1 mq g2 name lead rules).erase := by
   rw [mediaRule_render O M hO ns kw g1 mq g2 name lead rules false h f hf]
   simp [projRule_parsed O M ns false _ h]
+
+/-- `@variables` alone (`CSSVariablesDeclaration.cssText = tokens`): every spelled block — white space and comments
+at every gap, letter case and simple escapes of the names, optional last `;`, names declared more than once —
+gives back the mapping it denotes, in order (`SVarBlock.erase`: a name declared again takes the place of its first
+declaration) -/
+theorem variables_block_recovered (O : Oracle) (b : SVarBlock) (h : b.WF O) :
+    (varsDecl O b.toks).map (fun vs => vs.map projVar) = some b.erase := by
+  rw [varsDecl_block O b h, Option.map_some, SVarBlock.proj_parsed O b h]
+
+/-- `@import` alone (`CSSImportRule.cssText = tokens`): target, media query tokens and name of every spelling;
+`storedName`: an empty name is no name -/
+theorem import_rule_recovered (O : Oracle) (kw : Mask) (g1 : Gap) (href : SHref) (g2 : Gap)
+    (mq : Option (List Tok × Gap)) (name : SName) (h : ImportWF O href mq name) :
+    (importRule O (SImp.import_ kw g1 href g2 mq name).toks).map
+        (fun i => (i.href, i.media.map clean, storedName i.name)) =
+      some (href.value, mq.map (fun p => strip p.1), storedName (name.map (·.2.1))) := by
+  rw [importRule_render O kw g1 href g2 mq name h]
+  cases mq with
+  | none => rfl
+  | some p =>
+    obtain ⟨m, g3⟩ := p
+    have := clean_padded [] (Gap.toks g3) m (by simp) (gapL_toks g3).isGap (h.mqWF (m, g3) rfl).1.core
+    simp only [List.nil_append] at this
+    simp [this]
+
+/-- non-vacuity of the two: the `@variables` block and the named `@import` of the example sheet -/
+example : Ex2.vblk.WF Ex2.O := Ex2.vblk_wf
+/-- a test, not a theorem: the example block declares `c1` twice and `w` once: two variables -/
+example : Ex2.vblk.erase.length = 2 := by decide +kernel
 
 /-- string values: `_stringtokenvalue` / `_uritokenvalue` give back the text for every quote style, every
 case of `url`, white space inside `url( )` -/
